@@ -210,35 +210,64 @@ Proof.
   destruct t as [|x t']; [exact Hts|]. cbn [forallb]. rewrite Hts. unfold tok_ok. rewrite Ht. reflexivity.
 Qed.
 
-(* SpaceSeparatedListOfStrings: whatever list .set(s) stored comes back from its own str() *)
-Lemma spacelist_roundtrip : forall s cur oks,
-  forallb (fun b : bool => b) oks = true ->
-  exists l, set_text (KSpaceList false) cur oks s = Ok (PL l) /\
-            set_text (KSpaceList false) cur oks (str_of (KSpaceList false) (PL l)) = Ok (PL l).
+Lemma oks_all oks : forallb (fun b : bool => b) oks = true ->
+  (forall n, forallb (fun b : bool => b) (firstn n oks) = true) /\ (forall n, hd_ok (skipn n oks) = true).
 Proof.
-  intros s cur oks Hoks.
+  intro Hoks.
   assert (Hsplit : forall n, forallb (fun b : bool => b) (firstn n oks) = true /\ forallb (fun b : bool => b) (skipn n oks) = true).
   { intro n. rewrite <- (firstn_skipn n oks) in Hoks. rewrite forallb_app in Hoks.
     apply andb_true_iff in Hoks. exact Hoks. }
-  assert (Hall : forall n, forallb (fun b : bool => b) (firstn n oks) = true) by (intro n; apply Hsplit).
-  assert (Hhd : forall n, hd_ok (skipn n oks) = true).
-  { intro n. destruct (Hsplit n) as [_ H]. unfold hd_ok. destruct (skipn n oks) as [|b r]; [reflexivity|].
-    cbn [forallb] in H. apply andb_true_iff in H as [H _]. exact H. }
-  exists (split_ws s). split.
-  - unfold set_text. rewrite Hall. unfold set_value. rewrite Hhd. reflexivity.
-  - unfold set_text. cbn [str_of].
-    assert (E : split_ws (match split_ws s with [] => [SP] | _ :: _ => join [SP] (split_ws s) end) = split_ws s).
-    { destruct (split_ws s) as [|t ts] eqn:Es.
-      - vm_compute. reflexivity.
-      - rewrite <- Es. apply split_ws_join; [apply split_ws_tokens_ok|rewrite Es; discriminate]. }
-    rewrite E. rewrite Hall. unfold set_value. rewrite Hhd. reflexivity.
+  split; intro n; [apply Hsplit|].
+  destruct (Hsplit n) as [_ H]. unfold hd_ok. destruct (skipn n oks) as [|b r]; [reflexivity|].
+  cbn [forallb] in H. apply andb_true_iff in H as [H _]. exact H.
 Qed.
 
-(* a list holding an element with a blank does not come back (setValue accepts any list) *)
-Lemma spacelist_setvalue_refuted :
-  exists l, forallb tok_ok l = false /\
-    set_text (KSpaceList false) (PL []) [] (str_of (KSpaceList false) (PL l)) <> Ok (PL l).
-Proof. exists [[97; 32; 98]]. split; [vm_compute; reflexivity|]. vm_compute. discriminate. Qed.
+Lemma spacelist_set s cur oks : forallb (fun b : bool => b) oks = true ->
+  set_text (KSpaceList false) cur oks s = Ok (PL (split_ws s)).
+Proof.
+  intro H. destruct (oks_all oks H) as [Hall Hhd]. unfold set_text. rewrite Hall. unfold set_value. rewrite Hhd. reflexivity.
+Qed.
+
+(* exactly the lists of non-empty, blank-free elements come back from their own text *)
+Lemma spacelist_roundtrip_iff : forall l cur oks, forallb (fun b : bool => b) oks = true ->
+  (set_text (KSpaceList false) cur oks (str_of (KSpaceList false) (PL l)) = Ok (PL l) <-> forallb tok_ok l = true).
+Proof.
+  intros l cur oks Hoks. rewrite (spacelist_set _ cur oks Hoks). split.
+  - intro H. inversion H as [E]. rewrite <- E at 1. rewrite E. rewrite <- E. apply split_ws_tokens_ok.
+  - intro H. f_equal. f_equal. cbn [str_of]. destruct l as [|t ts]; [vm_compute; reflexivity|].
+    apply split_ws_join; [exact H|discriminate].
+Qed.
+
+(* ... and everything .set(text) stores is such a list *)
+Lemma spacelist_set_in_domain : forall s cur oks, forallb (fun b : bool => b) oks = true ->
+  exists l, set_text (KSpaceList false) cur oks s = Ok (PL l) /\ forallb tok_ok l = true.
+Proof. intros s cur oks H. exists (split_ws s). split; [apply spacelist_set; exact H|apply split_ws_tokens_ok]. Qed.
+
+Lemma sw_vstr s : vstr s = true -> let '(t, ts) := sw s in vstr t = true /\ forallb vstr ts = true.
+Proof.
+  induction s as [|c s IH]; intro H; [split; reflexivity|].
+  unfold vstr in H. cbn [forallb] in H. apply andb_true_iff in H as [Hc Hs]. specialize (IH Hs).
+  cbn [sw]. destruct (sw s) as [t ts]. destruct IH as [Ht Hts]. destruct (isspace c).
+  - split; [reflexivity|]. destruct t; [exact Hts|]. cbn [forallb]. rewrite Ht, Hts. reflexivity.
+  - split; [|exact Hts]. unfold vstr. cbn [forallb]. rewrite Hc. exact Ht.
+Qed.
+
+Lemma split_ws_vstr s : vstr s = true -> forallb vstr (split_ws s) = true.
+Proof.
+  intro H. unfold split_ws. pose proof (sw_vstr s H) as Hs. destruct (sw s) as [t ts]. destruct Hs as [Ht Hts].
+  destruct t; [exact Hts|]. cbn [forallb]. rewrite Ht, Hts. reflexivity.
+Qed.
+
+Lemma vstr_app a b : vstr (a ++ b) = vstr a && vstr b.
+Proof. unfold vstr. apply forallb_app. Qed.
+
+Lemma vstr_join_sp l : forallb vstr l = true -> vstr (join [SP] l) = true.
+Proof.
+  induction l as [|t l IH]; intro H; [reflexivity|]. cbn [forallb] in H. apply andb_true_iff in H as [Ht Hl].
+  destruct l as [|t2 l']; [exact Ht|].
+  change (join [SP] (t :: t2 :: l')) with (t ++ [SP] ++ join [SP] (t2 :: l')).
+  rewrite !vstr_app, Ht, (IH Hl). reflexivity.
+Qed.
 
 (* ------------------------------------------------------------------ *)
 (* String *)
